@@ -19,7 +19,7 @@ REPO = os.path.abspath(os.environ.get("VERIF_REPO", "/repo"))
 
 
 def make_scratch(patch, tag):
-    d = tempfile.mkdtemp(prefix=f"anstyle-selftest-{tag}-", dir=os.environ.get("VERIF_SCRATCH_ROOT", "/tmp"))
+    d = tempfile.mkdtemp(prefix=f"anstyle-selftest-{tag.replace(chr(47), chr(95))}-", dir=os.environ.get("VERIF_SCRATCH_ROOT", "/tmp"))
     for name in ("Cargo.toml", "Cargo.lock", "README.md"):
         if os.path.exists(os.path.join(REPO, name)):
             shutil.copy(os.path.join(REPO, name), os.path.join(d, name))
@@ -64,8 +64,37 @@ def run_one(m, worker):
         shutil.rmtree(evd, ignore_errors=True)
 
 
+def seeded_entries():
+    """The independently written breaking changes under seeded/ (kind != benign-refactor): each must make the check of the
+    property it breaks report a violation."""
+    import glob
+    out = []
+    for mp in sorted(glob.glob(os.path.join(HERE, "seeded", "*", "meta.json"))):
+        m = json.load(open(mp))
+        if m.get("kind") == "benign-refactor":
+            continue
+        prop = m["breaks_property"]
+        out.append({"name": "seeded/" + m["id"], "patch": os.path.join("seeded", m["id"], "patch.diff"), "expect": {prop: prop + "|"},
+                    "suite_passes": bool(m.get("confirmed_by_me", {}).get("suite_passes_with_change"))})
+    return out
+
+
+def benign_entries():
+    """Behaviour-preserving refactors under seeded/ (kind == benign-refactor): every check must stay silent on them."""
+    import glob
+    out = []
+    for mp in sorted(glob.glob(os.path.join(HERE, "seeded", "*", "meta.json"))):
+        m = json.load(open(mp))
+        if m.get("kind") == "benign-refactor":
+            out.append({"name": "seeded/" + m["id"], "patch": os.path.join("seeded", m["id"], "patch.diff"), "silent": m.get("silent_checks", [])})
+    return out
+
+
 def main(names, jobs):
     idx = json.load(open(os.path.join(HERE, "selftest", "index.json")))
+    if "--seeded" in names or any(n.startswith("seeded") for n in names):
+        names = [n for n in names if n != "--seeded"]
+        idx = idx + seeded_entries()
     ms = [m for m in idx if not names or m["name"] in names or any(n in m["name"] for n in names)]
     print(f"selftest: {len(ms)} mutants")
     fails = 0
@@ -87,6 +116,7 @@ def for_property(prop):
     vpath = os.path.join(HERE, "selftest", "verified.json")
     verified = json.load(open(vpath)) if os.path.exists(vpath) else {}
     ms = [dict(m, expect={prop: m["expect"][prop]}) for m in idx if prop in m["expect"]]
+    ms += [m for m in seeded_entries() if prop in m["expect"]]
     out = {"mutants": len(ms), "detected": 0, "missed": [], "skipped": [], "suite_surviving": 0}
     for m in ms:
         try:
@@ -99,7 +129,7 @@ def for_property(prop):
             continue
         if ok:
             out["detected"] += 1
-            if verified.get(m["name"], {}).get("tests_pass"):
+            if verified.get(m["name"], {}).get("tests_pass") or m.get("suite_passes"):
                 out["suite_surviving"] += 1
         else:
             out["missed"].append(m["name"])
